@@ -40,8 +40,20 @@ structure MSess where
   assetIdsEver : List Nat := []
 deriving Repr, Inhabited
 
+/-- the signed-latency measurement a connection has in progress (C18) -/
+structure LatM where
+  rid : Nat
+  n : Nat
+  wallet : String
+  uuid : Nat
+  issued : List Nat := []
+  answered : List Nat := []
+  done : Bool := false
+deriving Repr, Inhabited
+
 structure MState where
   cfg : Cfg
+  lats : List (Nat × LatM) := []
   sessions : List MSess := []
   ev : Nat := 0
   viol : Array Violation := #[]
@@ -204,7 +216,8 @@ def MState.onRequest (m : MState) (c : Nat) (r : Req) (ds : List Delivery) (outc
             else m
           | _ => m.bad "C16" "no-odal-state" "successful join without odal state"
         else m
-      let m := m.put s'
+      let m := (m.put s')
+      let m := { m with lats := m.lats.filter (·.1 != c) }
       m.checkOthers c ds (expLeave ++ s'.relay pid (.joinBcast ots pid)) ["C02", "C06"] "join-relay"
     | none =>
       -- a refused join changes nothing: nobody else hears of it, the requester stays where it was
@@ -364,12 +377,52 @@ def MState.onRequest (m : MState) (c : Nat) (r : Req) (ds : List Delivery) (outc
           | some e => if e.owner != pid then m.expectError own rid ecUnauthorized ["C05", "C04"] "wrong-answer"
                       else m.bad "C16" "asset-add-refused" (flat s!"entity {eid} answer {reprStr own}")
       m.checkOthers c ds [] ["C02", "C05", "C16"] "refused-request-relayed"
+  | some (s, _pid), .signedLatency rid iter wallet =>
+    let m := m.checkOthers c ds [] ["C03"] "unexpected-relay"
+    let pings := own.filterMap fun o => match o with | .pingReq id => some id | _ => none
+    if 3 ≤ iter && iter ≤ 50 && wallet != "" then
+      match pings with
+      | [id] => { m with lats := (m.lats.filter (·.1 != c)) ++ [(c, { rid, n := iter, wallet, uuid := s.uuid, issued := [id] })] }
+      | _ => m.bad "C18" "measurement-not-started" (flat s!"valid request {reprStr r} answered {reprStr own}")
+    else
+      let m := if pings.isEmpty then m else m.bad "C18" "invalid-measurement-started" (flat s!"{reprStr r}")
+      m.expectError own rid ecBadRequest ["C18", "C04"] "wrong-answer"
+  | some (_s, _pid), .pingResp id =>
+    let m := m.checkOthers c ds [] ["C03"] "unexpected-relay"
+    let pings := own.filterMap fun o => match o with | .pingReq x => some x | _ => none
+    let final := own.findSome? fun o => match o with | .latencyResp r' n ids u w => some (r', n, ids, u, w) | _ => none
+    match m.lats.find? (·.1 == c) with
+    | some (_, l) =>
+      if !l.done && l.issued.contains id && !l.answered.contains id then
+        let l := { l with answered := l.answered ++ [id] }
+        if l.answered.length < l.n then
+          match pings, final with
+          | [x], none => { m with lats := (m.lats.filter (·.1 != c)) ++ [(c, { l with issued := l.issued ++ [x] })] }
+          | _, _ => m.bad "C18" "round-not-continued" (flat s!"after {l.answered.length} of {l.n} rounds: {reprStr own}")
+        else
+          let m := { m with lats := (m.lats.filter (·.1 != c)) ++ [(c, { l with done := true })] }
+          match final with
+          | some (r', n, ids, u, w) =>
+            let m := if !pings.isEmpty then m.bad "C18" "ping-after-completion" (flat s!"{reprStr own}") else m
+            if r' == l.rid && n == l.n && ids.isPerm l.issued && u == l.uuid && w == l.wallet then m
+            else m.bad "C18" "report-not-bound-to-request"
+              (flat s!"expected rid {l.rid} count {l.n} ids {l.issued} uuid {l.uuid} wallet {l.wallet}; got {reprStr own}")
+          | none => m.bad "C18" "no-report-after-last-round" (flat s!"{l.n} rounds answered: {reprStr own}")
+      else
+        -- unknown id, or one answered before, or the measurement is over: refused, nothing advances
+        if !pings.isEmpty || final.isSome then
+          m.bad "C18" (if l.answered.contains id then "answered-ping-accepted" else "unknown-ping-accepted")
+            (flat s!"ping response {id} (issued {l.issued}, answered {l.answered}, done {l.done}) advanced the measurement: {reprStr own}")
+        else m
+    | none =>
+      if !pings.isEmpty || final.isSome then m.bad "C18" "unknown-ping-accepted" (flat s!"no measurement in progress: {reprStr own}") else m
   | some _, _ =>
-    -- ping, latency, receipt, dagaz, unknown: nothing may reach the other members
+    -- ping, receipt, dagaz, unknown: nothing may reach the other members
     m.checkOthers c ds [] ["C03"] "unexpected-relay"
 
 /-- after the event: connections that ended (handler error, panic) have left; registry line (C07) -/
 def MState.onEnd (m : MState) (c : Nat) (ds : List Delivery) (leftBy : String) : MState :=
+  let m := { m with lats := m.lats.filter (·.1 != c) }
   match m.whereIs c with
   | none => m
   | some (s, pid) =>
